@@ -100,3 +100,36 @@ pub fn line(l: &str) -> String {
         None => format!("OK {} | {}", esc(&o.value), esc(&o.console.join("\u{1}"))),
     }
 }
+
+/// inverse of `esc`
+pub fn unesc(s: &str) -> String {
+    let mut out = String::with_capacity(s.len());
+    let mut it = s.chars();
+    while let Some(c) = it.next() {
+        if c != '\\' {
+            out.push(c);
+            continue;
+        }
+        match it.next() {
+            Some('n') => out.push('\n'),
+            Some('t') => out.push('\t'),
+            Some('r') => out.push('\r'),
+            Some('\\') => out.push('\\'),
+            Some(o) => {
+                out.push('\\');
+                out.push(o);
+            }
+            None => out.push('\\'),
+        }
+    }
+    out
+}
+
+/// `proge` model: as `prog`, but the program text is escaped with `esc` (backslashes doubled).
+pub fn line_escaped(l: &str) -> String {
+    let o = run_fresh(&unesc(l));
+    match &o.error {
+        Some(c) => format!("ERR {} {} | {}", c, esc(&o.message), esc(&o.console.join("\u{1}"))),
+        None => format!("OK {} | {}", esc(&o.value), esc(&o.console.join("\u{1}"))),
+    }
+}
